@@ -21,8 +21,10 @@ VolSet == IF VolMode = 0 THEN {} ELSE
 C3 == <<3, MkClamped(3, <<Half>>, <<0>>)>>
 L2 == <<1, MkClamped(1, <<Half>>, <<0>>)>>
 L3 == <<1, MkClamped(1, <<Half>>, <<1>>)>>
+C4 == <<4, MkClamped(4, <<Half>>, <<0>>)>>
 VolCubic == IF VolMode = 0 THEN {} ELSE
   Volumes({C3}, {L2}, {L3}, {FALSE}, Seed) \cup Volumes({L3}, {C3}, {L2}, {TRUE}, Seed) \cup Volumes({L2}, {L3}, {C3}, {FALSE}, Seed)
+  \cup Volumes({C4}, {L2}, {L3}, {FALSE}, Seed)          \* a quartic direction: several passes of the inner A5.8 loop on rows of points
 MCShapes == CurveSet \cup SurfSet \cup VolSet \cup VolCubic
 
 \* single-direction admissible insertions
